@@ -112,7 +112,7 @@ package internal
 //@   trusted T-xml
 //@   requires R1: p != nil
 //@   decodes v
-//@   ensures P1: err != nil ==> (httpCode(err) == 404 || (httpCode(err) == -1 && fromDecoder(err))) && !hostPath(err)
+//@   ensures P1: err != nil ==> (httpCode(err) == 404 || (!isHTTP(err) && httpCode(err) == -1 && fromDecoder(err))) && !hostPath(err)
 //@ func internal.IsNotFound(err) (r)
 //@   ensures N1: r <==> httpCode(err) == 404
 //@ func internal.NewMultiStatus(resps) (ms)
@@ -173,3 +173,26 @@ package internal
 //@   ensures P2: err == nil ==> dest != nil && dest.Path == urlParsePath(hget(hv, h, "Destination"))
 //@   ensures P3: err != nil ==> dest == nil && httpCode(err) == 400
 //@   ensures P4: err != nil ==> (hostPath(err) ==> strHostPath(hget(hv, h, "Destination")))
+
+//@ -- C11: per-property accounting. EncodeProp files one value under the propstat that carries the given status
+//@ -- (appending such a propstat if there is none); every other propstat keeps its status and its values, and no
+//@ -- two propstats carry the same status.
+//@ spec psDistinct(resp *Response) bool = forall i int, j int :: 0 <= i && i < j && j < len(resp.PropStats) ==> resp.PropStats[i].Status.Code != resp.PropStats[j].Status.Code
+//@ func internal.(*Response).EncodeProp(resp, code, v) (err)
+//@   requires R1: resp != nil
+//@   requires R2: psDistinct(resp)
+//@   allocates
+//@   assigns H_internal_Response_PropStats, E_internal_PropStat, E_internal_RawXMLValue
+//@   ensures E1: err == nil
+//@   ensures E2: psDistinct(resp)
+//@   ensures E3: len(resp.PropStats) >= old(len(resp.PropStats)) && len(resp.PropStats) <= old(len(resp.PropStats)) + 1
+//@   ensures E4: exists k int :: 0 <= k && k < len(resp.PropStats) && resp.PropStats[k].Status.Code == code
+//@   |   && len(resp.PropStats[k].Prop.Raw) == (k < old(len(resp.PropStats)) ? old(len(resp.PropStats[k].Prop.Raw)) + 1 : 1)
+//@   |   && resp.PropStats[k].Prop.Raw[len(resp.PropStats[k].Prop.Raw) - 1].out == v
+//@   |   && (len(resp.PropStats) == old(len(resp.PropStats)) + 1 <==> k == old(len(resp.PropStats)))
+//@   ensures E5: forall i int :: 0 <= i && i < old(len(resp.PropStats)) ==> resp.PropStats[i].Status.Code == old(resp.PropStats[i].Status.Code)
+//@   |   && (resp.PropStats[i].Status.Code != code ==> len(resp.PropStats[i].Prop.Raw) == old(len(resp.PropStats[i].Prop.Raw)))
+//@   witness E4: k : (len(resp.PropStats) == old(len(resp.PropStats)) ? #i1 - 1 : old(len(resp.PropStats)))
+//@   loop 1 invariant I1: len(resp.PropStats) == old(len(resp.PropStats)) && (forall j int :: 0 <= j && j < len(resp.PropStats) ==> resp.PropStats[j] == old(resp.PropStats[j]))
+//@   loop 1 invariant I2: forall j int :: 0 <= j && j < #i ==> resp.PropStats[j].Status.Code != code
+//@   loop 1 invariant I3: raw != nil && raw.out == v
